@@ -580,6 +580,8 @@ def canon_nc(nc, root, table, problems):
         except codec.OutOfModel:
             anc.append([apa, ["?", repr(aref)]])
     out["anc"] = anc
+    # the raw text the Processor accumulated section by section (Lean: Acc.accObj_eq / Acc.joinText)
+    out["orig"] = getattr(nc.path, "original", None) if nc.path is not None else None
     try:
         out["path"] = str(nc.path) if nc.path is not None else None
     except Timeout:
@@ -899,6 +901,13 @@ def c02_compare(case, kinds, req, m_req, d, table, stats, report, viol):
         if msegs != isegs:
             report(viol, "c02:path-segments-differ-from-model:%s" % kinds,
                    "%r: result %s reports path %r; the model expects %r" % (text, a, ptxt, dotted(mr.get("path") or [])),
+                   dict(case, impl=ir, model=mr, prop="C02-model"))
+        # the accumulated raw text is the model's sections joined by the dot (Acc.accObj_eq): compared as text
+        # whenever no section holds two adjacent escaped backslashes (escape_path_section copies such a pair: C07-K6)
+        mtxt = dotted(mr.get("path") or [])
+        if ir.get("orig") is not None and ir["orig"] != mtxt and "\\\\\\\\" not in mtxt:
+            report(viol, "c02:accumulated-path-text-differs-from-model:%s" % kinds,
+                   "%r: result %s accumulated the path text %r; the model's sections give %r" % (text, a, ir["orig"], mtxt),
                    dict(case, impl=ir, model=mr, prop="C02-model"))
         stats["requeries"] += 1
         rq, rd, rtable = run_query(case["doc"], ptxt, "req")
